@@ -48,7 +48,7 @@ func checkC05(r *Result) {
 	for _, s := range P.Sites(func(c *CallSite) bool {
 		return methods[c.Method] && strings.HasPrefix(c.Callee, "iface:") && strings.Contains(c.Callee, "StakingKeeper")
 	}) {
-		got[FuncName(TopFunc(s.Fn))+"|"+s.Method]++
+		got[FuncName(TopFunc(s.Fn))+"|"+s.Method] += Multiplicity(s.Fn)
 	}
 	var ks []string
 	for k := range got {
@@ -338,6 +338,17 @@ func checkC05(r *Result) {
 			if cs.Callee == "(x/reporter/keeper.Keeper).tokensToDispute" {
 				pool := Arg(cs.Instr, 1)
 				okPool := false
+				if c, ok := pool.(*ssa.Const); ok && c.Value != nil {
+					// one call per branch (`if v.IsBonded() { return move(bonded pool) }`): the constant pool under the fact of its branch
+					want := tm.Of(pool).Op
+					bad := ps.Require(cs.Instr, func(v map[string]bool) bool {
+						if want == "const:bonded_tokens_pool" {
+							return v["bonded"]
+						}
+						return want == "const:not_bonded_tokens_pool" && !v["bonded"]
+					})
+					okPool = len(bad) == 0 && len(ps.Matched["bonded"]) > 0
+				}
 				if ph, ok := pool.(*ssa.Phi); ok && len(ph.Edges) >= 2 {
 					// edge from the bonded branch carries bonded_tokens_pool, the unbonding branch not_bonded_tokens_pool
 					m := map[string]bool{}
